@@ -329,13 +329,16 @@ func crossRef(r *rand.Rand, rootFree bool) (prefix, cond *gen.N, doc string) {
 // .keyvalue() (.keyvalue().value.keyvalue().id): that id is the distance
 // between a document object and a triple allocated during the execution, so
 // it differs from one execution to the next (recorded under C16,
-// kv.id.stable). Over-approximated as "two .keyvalue() and an id in sight".
+// kv.id.stable). Over-approximated as "two .keyvalue() that do not follow one
+// another directly, and an id in sight": .keyvalue().keyvalue() numbers the
+// triples themselves (a per-execution counter, the same in every execution).
 func unstableIDs(n *gen.N) bool {
-	kvs := 0
+	heads := 0
 	n.Walk(func(x *gen.N) {
-		if x.K == gen.KMethod && x.S == "keyvalue" {
-			kvs++
+		isKV := func(y *gen.N) bool { return y != nil && y.K == gen.KMethod && y.S == "keyvalue" }
+		if isKV(x.Next) && !isKV(x) {
+			heads++
 		}
 	})
-	return kvs >= 2 && idExposed(n)
+	return heads >= 2 && idExposed(n)
 }
